@@ -217,6 +217,7 @@ type Raft struct {
 	toldLeader  bool   // the last leadership notification handed to the server
 	applierDone bool
 	trailing    uint64
+	holdUntil   time.Time
 	Snapshots   int
 	// LagMax bounds how far this node's knowledge of the commit index trails, in scheduling terms it is
 	// unbounded: every hand-over is its own event.
@@ -315,6 +316,19 @@ func (r *Raft) reachable() bool {
 	return true
 }
 
+// Hold makes this member learn nothing new for d of simulated time: the leader's AppendEntries to it are
+// slow (the Raft connection is a NATS connection of its own, a saturated or lossy route delays it while
+// the member's other traffic flows). The member keeps acting on the metadata it has. Commits do not wait
+// for it (the caller keeps the held members a minority).
+func (r *Raft) Hold(d time.Duration) {
+	r.holdUntil = time.Now().Add(d)
+	// (an event that does nothing: the driver's idle wait ends when the hold does)
+	r.c.Sim.Post(&simrt.Event{Label: "raft-hold-ends:" + string(r.id), Node: -1, NotBefore: r.holdUntil, Fire: func() {}})
+}
+
+// Held reports whether the member is currently kept from learning new entries.
+func (r *Raft) Held() bool { return time.Now().Before(r.holdUntil) }
+
 // scheduleGrant posts the event that lets this node learn about (and store) the next committed entries.
 func (r *Raft) scheduleGrant() {
 	if r.granting || r.shutdown || r.dead {
@@ -327,7 +341,7 @@ func (r *Raft) scheduleGrant() {
 	r.c.Sim.Post(&simrt.Event{
 		Label: "raft-replicate:" + string(r.id),
 		Node:  r.simNode,
-		Ready: func() bool { return r.reachable() },
+		Ready: func() bool { return r.reachable() && (r.c.Leader == r.id || !time.Now().Before(r.holdUntil)) },
 		Fire: func() {
 			r.granting = false
 			if r.shutdown || r.dead {
